@@ -60,6 +60,13 @@ CLAIMED.update({
             "7 C09"),
 })
 
+CLAIMED.update({
+    "C07": ("Coq proof (decode-after-encode round trips for all six formats from split/join, strip and fixed-column lemmas; filter and no-data-line theorems; closed computation on the live code tables) + extracted-model correspondence line by line + abstract-reaction oracle",
+            "Theorems in Props/C07.v: for KIDA, UMIST, Leeds, UCLCHEM and the native format a well-formed line (fields without the separator / words padded inside their columns) decodes to exactly the fields it was written from - reactants and products in order with multiplicity, alpha/beta/gamma, window, index, format code and the type the live code table assigns; KROME species fields follow the current @format; whatever the line, marker tokens and empty slots never become species and every other name is kept; blank lines (all formats) and KROME comment/directive lines add no reaction; a file yields one reaction per data line in file order. The code tables themselves are checked against the ReactionType enum regenerated from /repo. Tied to Network(filelist, fileformats) by decoding the same lines with the extracted model.",
+            "Numeric fields are texts handed to float()/int() (CPython trusted); species-name parsing of the kept names is C08; KROME directives other than @format/@var/@common are rejected by the implementation with an error (outside the property: no reaction is added) and are not generated; UMIST lines with several fits keep the first fit.",
+            "7 C07"),
+})
+
 NOT_YET = {}
 
 
